@@ -29,7 +29,8 @@ def plan(tier):
     base = {"case_time_limit": 240,
             "required_classes": ["one-site-chain", "stop-at-centre", "overcomplete-bond", "rank-deficient-bond", "bond-one",
                                  "mpo", "mpdm", "mps", "variational", "sweep:to_right", "sweep:to_left", "idempotence",
-                                 "long-chain", "sector:zero-with-signed-labels", "variational:own-limit-below-schedule"],
+                                 "long-chain", "sector:zero-with-signed-labels", "variational:own-limit-below-schedule",
+                                 "ensure-canonical:explicit-tolerance-on-drifted-state"],
             "required_counters": {"oracle": 2000, "isometry_checks": 1000}}
     if tier == "quick":
         base.update({"ncases": 320, "min_nontrivial": 60})
@@ -316,6 +317,27 @@ def run_case(ctx):
         ctx.lib(mp.compress, what="compress(repeat)")
         w.same_object(mp, "compress(repeat)")
         ctx.check(all(x <= y for x, y in zip(mp.bond_dims, b2)), "compress(repeat)|bond-grew", before=b2, after=mp.bond_dims)
+
+    # ---- 5b. ensure_*_canonical with an explicit tolerance on a state that drifted off canonical form ----------------
+    if n >= 2 and not mp.is_mpo and rng.random() < 0.3:
+        for right in (True, False):
+            cp = mp.copy()
+            cp.compress_config = fixed_cfg()
+            ctx.lib(cp.ensure_right_canonical if right else cp.ensure_left_canonical, what="ensure_canonical")
+            k = int(rng.integers(1, n)) if right else int(rng.integers(0, n - 1))
+            centre = 0 if right else n - 1
+            eps = 2e-6
+            cp[k] = np.asarray(cp[k].array) * (1 + eps)
+            cp[centre] = np.asarray(cp[centre].array) / (1 + eps)
+            ctx.cls("ensure-canonical:explicit-tolerance-on-drifted-state")
+            name = "ensure_right_canonical" if right else "ensure_left_canonical"
+            ctx.lib(getattr(cp, name), rtol=1e-11, atol=1e-11, what=name + "(rtol,atol)")
+            ctx.count("oracle")
+            w.same_object(cp, name + "(rtol,atol)")
+            sites = range(1, n) if right else range(0, n - 1)
+            worst = max(abs(states.isometry_defect(cp, i, not right)[0]) + abs(states.isometry_defect(cp, i, not right)[1] - 1) for i in sites)
+            ctx.count("isometry_checks", len(list(sites)))
+            ctx.check(worst <= 1e-9, name + "(rtol,atol)|not-canonical-to-the-requested-tolerance", worst=worst, drifted_site=k)
 
     # ---- 6. variational compression of operator x state --------------------------------------------
     if mp.is_mps and 2 <= n <= 5 and rng.random() < (0.35 if ctx.tier == "quick" else 0.3):
